@@ -383,6 +383,72 @@ class ArrayExpr(SingletonExpr):
                 continue
             dependents[dep._name] = [ref for ref in refs if (node := ref()) is not None and node._name != self._name]
 
+    def simplify_once(self, dependents, simplified):
+        """``Expr.simplify_once`` with one addition: a replacement inherits the
+        recorded consumers of the node it replaces.
+
+        ``dependents`` is collected once at the start of a simplify pass, while
+        rewrites keep descending within the pass.  A node that a rewrite has
+        just put in place of another one is not in the map, so a gate asked
+        about it -- "does anything above observe this grid?" -- would see no
+        consumers at all and let a grid-changing push through under a consumer
+        that holds a per-block literal.
+        """
+        import weakref
+
+        from dask._expr import Expr
+
+        if self._name in simplified:
+            return simplified[self._name]
+
+        def inherit(old, new):
+            refs = dependents.get(old._name)
+            if refs:
+                seen = dependents[new._name]
+                seen.extend(ref for ref in refs if ref not in seen)
+
+        expr = self
+
+        out = expr._simplify_down()
+        if out is None:
+            out = expr
+        if not isinstance(out, Expr):
+            return out
+        if out._name != expr._name:
+            inherit(expr, out)
+            expr = out
+
+        # Allow children to simplify their parents
+        for child in expr.dependencies():
+            out = child._simplify_up(expr, dependents)
+            if out is None:
+                out = expr
+            if not isinstance(out, Expr):
+                return out
+            if out is not expr and out._name != expr._name:
+                inherit(expr, out)
+                expr = out
+                break
+
+        # Rewrite all of the children
+        new_operands = []
+        changed = False
+        for operand in expr.operands:
+            if isinstance(operand, Expr):
+                dependents[operand._name].append(weakref.ref(expr))
+                new = operand.simplify_once(dependents=dependents, simplified=simplified)
+                simplified[operand._name] = new
+                if new._name != operand._name:
+                    changed = True
+            else:
+                new = operand
+            new_operands.append(new)
+
+        if changed:
+            expr = type(expr)(*new_operands)
+
+        return expr
+
     def _requires_grid_preservation(self, dependency):
         """Whether this node observes a dependency's block grid."""
         # A node of unknown chunk sizes cannot be put back on the block
